@@ -132,6 +132,16 @@ def check_case(c):
             if v is not None:
                 return Violation("fabricated-result", "%r: %s" % (c, v.detail)), info
             info["classes"].append("trickle-completed")
+            # "bytes trickling too slowly": the 24-byte header of the first trickled packet alone takes 24*delta; if that exceeds
+            # read_timeout_s the read of that block must have timed out (read_timeout_s bounds a whole block, it is not an inactivity limit)
+            d_eff = c.get("delta", 0.05)
+            t_read = AUTH_T if (opname == "connect-pub" and c["k"] >= 2) else Teff      # after offering the public key the reads use auth_timeout_s
+            if t_read is not None:
+                d_eff = min(d_eff, max(t_read, 0))
+            d_eff = max(d_eff, 1e-3)
+            if 24 * d_eff > max(Rp, 0) + 2 * d_eff + 0.01:
+                return Violation("slow-trickle-not-timed-out", "%r: the stalled packet's header arrived at 1 byte per %.3f s (24 bytes = %.3f s) with read_timeout_s=%r, yet the operation completed normally"
+                                 % (c, d_eff, 24 * d_eff, Rp)), info
             if total is not None and opname in HAS_TOTAL:
                 # a whole-command limit was given: the command may only complete if it did so (about) within that limit
                 elapsed = out.t_ops[idx][1] - core.stall_t
